@@ -426,7 +426,7 @@ theorem array_agrees (ms : List Method) (lim : Option Nat) (f : Frame) (hs : f.S
     · show Except.ok _ = Except.ok _
       rw [(show Same _ _ from h).vals]
 
-/-- the same for the function `nona` (arrays ignore `edge`): the array result is the values of the pandas result -/
+/-- the same for the function `nona` with `edge = None`: the array result is the values of the pandas result (every `edge`: `nona_edge_array_agrees`) -/
 theorem nona_array_agrees (f g : Frame) (hs : f.Sorted) (hr : f.Rect) (hne : f.cols ≠ [])
     (h : nona Option.none f = .ok g) : nonaArr f.vals = g.vals := by
   have hsame := same_ofArr f hs hr hne
@@ -434,7 +434,69 @@ theorem nona_array_agrees (f g : Frame) (hs : f.Sorted) (hr : f.Rect) (hne : f.c
   unfold nonaArr
   rw [hsame.rowValid.symm, hsame.nrows.symm, vals_gather, vals_gather, vals_ofArr]
 
+/-- **nona_edge_array_agrees** - the clause "given a numpy array the result equals the values of the result for the
+corresponding Series/DataFrame" for `nona(x, edge)`, every `edge`: the array is cut by POSITION (`nonaArrE`: `take` / `drop` at
+the last / first row holding a value), the pandas object by LABEL (`nona`: `df_slice(df, ub = last surviving label, '[]')`);
+over a strictly increasing index the two agree (errors too).  True of the code since repo fix C12-E1; before it the array
+ignored `edge` (`nona_edge_array_ignored` below is that behaviour). -/
+theorem nona_edge_array_agrees (e : Option Int) (f : Frame) (hs : f.Sorted) (hr : f.Rect) (hne : f.cols ≠ []) :
+    nonaArrE e f.vals = (nona e f).map Frame.vals := by
+  have hsame := same_ofArr f hs hr hne
+  have hV : (List.range (ofArr f.vals).nrows).filter (ofArr f.vals).rowValid = (List.range f.nrows).filter f.rowValid := by
+    rw [hsame.rowValid.symm, hsame.nrows.symm]
+  have h0 : nonaArr f.vals = (f.gather ((List.range f.nrows).filter f.rowValid)).vals :=
+    nona_array_agrees f _ hs hr hne rfl
+  cases e with
+  | none => simp only [nonaArrE, nona]; rw [h0]; rfl
+  | some e =>
+    by_cases hV0 : (List.range f.nrows).filter f.rowValid = []
+    · simp only [nonaArrE, nona, hV, hV0, h0]; simp [Frame.gather]; rfl
+    · have hemp : (f.gather ((List.range f.nrows).filter f.rowValid)).idx.isEmpty = false := by simp [Frame.gather, hV0]
+      have hemp' : ((List.range f.nrows).filter f.rowValid).isEmpty = false := by simpa using hV0
+      obtain ⟨hq1, hq2, hq3⟩ := Frame.getLast_filter_range f.nrows f.rowValid hV0
+      generalize hp : ((List.range f.nrows).filter f.rowValid).getLast hV0 = p at hq1 hq2 hq3
+      have hlast : ((List.range f.nrows).filter f.rowValid).getLastD 0 = p := by
+        rw [List.getLastD_eq_getLast?, List.getLast?_eq_some_getLast hV0, hp]; rfl
+      have hub : ((f.gather ((List.range f.nrows).filter f.rowValid)).idx).getLastD 0 = f.idx.getD p 0 := by
+        simp only [Frame.gather, List.getLastD_eq_getLast?, List.getLast?_map, List.getLast?_eq_some_getLast hV0, hp]
+        rfl
+      obtain ⟨p0, tl, hcons⟩ : ∃ p0 tl, (List.range f.nrows).filter f.rowValid = p0 :: tl := by
+        cases hl : (List.range f.nrows).filter f.rowValid with
+        | nil => exact absurd hl hV0
+        | cons a tl => exact ⟨a, tl, rfl⟩
+      have hp0 : p0 < f.nrows := by
+        have : p0 ∈ (List.range f.nrows).filter f.rowValid := by rw [hcons]; simp
+        simpa using (List.mem_filter.mp this).1
+      have hlb : ((f.gather ((List.range f.nrows).filter f.rowValid)).idx).headD 0 = f.idx.getD p0 0 := by
+        simp [Frame.gather, hcons]
+      have hhead : ((List.range f.nrows).filter f.rowValid).headD 0 = p0 := by simp [hcons]
+      simp only [nonaArrE, nona, hV, hemp, hemp', hlast, hub, hlb, hhead]
+      by_cases h1 : e = 1
+      · subst h1
+        simp only [beq_self_eq_true, if_true, Bool.false_eq_true, if_false]
+        rw [Frame.filter_label_le f hs p hq1]
+        simp only [Except.map]
+        rw [Frame.vals_gather_take f hr]
+      · by_cases h2 : e = -1
+        · subst h2
+          simp only [show ((-1 : Int) == 1) = false from rfl, beq_self_eq_true, if_true, Bool.false_eq_true, if_false]
+          rw [Frame.filter_label_ge f hs p0 hp0]
+          simp only [Except.map]
+          rw [Frame.vals_gather_drop f hr]
+        · simp [h1, h2]; rfl
+
 /-! ### non-vacuity and evaluation checks -/
+
+/-- `nona_edge_array_agrees` on an array with a leading, an interior and a trailing NaN, both edges; and the behaviour
+before the fix (`nonaArr`: the interior NaN goes as well) differs from the pandas values - the witness of finding C12-E1 -/
+example : let f : Frame := { idx := [3, 5, 9, 10, 12], cols := [("a", [Option.none, some 1, Option.none, some 5, Option.none])] }
+    f.Sorted ∧ f.Rect ∧ f.cols ≠ [] ∧
+    (nonaArrE (some 1) f.vals).toOption = some [[Option.none, some 1, Option.none, some 5]] ∧
+    (nonaArrE (some (-1)) f.vals).toOption = some [[some 1, Option.none, some 5, Option.none]] ∧
+    (nona (some (-1)) f).toOption.map Frame.vals = some [[some 1, Option.none, some 5, Option.none]] := by decide
+theorem nona_edge_array_ignored : ∃ f : Frame, f.Sorted ∧ f.Rect ∧ f.cols ≠ [] ∧
+    (nona (some (-1)) f).toOption.map Frame.vals ≠ some (nonaArr f.vals) :=
+  ⟨{ idx := [3, 5, 9, 10, 12], cols := [("a", [Option.none, some 1, Option.none, some 5, Option.none])] }, by decide⟩
 
 example : ffill (some 1) [Option.none, some 1, Option.none, Option.none, some 5, Option.none] =
     [Option.none, some 1, some 1, Option.none, some 5, some 5] := by decide
